@@ -1,7 +1,7 @@
 PROP = dict(
     id='C08', level='exploration',
-    pyvc=[],
-    finite=[],
+    pyvc=['contracts.c04'],
+    finite=['finite.regex:oal_keyword_case'],
     bounded='bounded.c08',
     bounded_budget=dict(quick=45, thorough=420),
     assumptions=[],
